@@ -87,7 +87,8 @@ def run_attrs(pid, tier):
         eq("wrapper h visibility", mh and mh["vis"], h["vis"])
         eq("wrapper vf visibility", mvf and mvf["vis"], vf["vis"])
         eq("slot vf visibility", fld(it["VVftable"], "vf")["vis"], vf["vis"])
-        eq("placeholder slot visibility", fld(it["VVftable"], "_vfunc_1")["vis"], "priv")
+        eq("slot _raw visibility", fld(it["VVftable"], "_raw")["vis"], vf["vis"])
+        eq("placeholder slot visibility", fld(it["VVftable"], "_vfunc_2")["vis"], "priv")
         ev = next((e for e in fproj["evals"] if e["name"] == "gv"), None)
         eq("accessor get_gv visibility", ev and ev["vis"], m["evals"][0]["vis"])
         eq("T::get() visibility", it["T"].get("singleton_vis"), T["vis"])
@@ -108,7 +109,7 @@ def run_attrs(pid, tier):
         eq("wrapper h doc", mh and mh["doc"], h["doc"])
         eq("wrapper vf doc", mvf and mvf["doc"], vf["doc"])
         eq("slot vf doc", fld(it["VVftable"], "vf")["doc"], vf["doc"])
-        eq("placeholder slot doc", fld(it["VVftable"], "_vfunc_1")["doc"], [])
+        eq("placeholder slot doc", fld(it["VVftable"], "_vfunc_2")["doc"], [])
         eq("VVftable doc", it["VVftable"]["doc"], [])
         if h["vis"] == "pub":
             dh = meth(it["D"], "h")
